@@ -1284,7 +1284,7 @@ class Interp:
         "<std::path::PathBuf as core::convert::From<&T>>::from", "<alloc::borrow::Cow<'_, T> as core::convert::AsRef<T>>::as_ref",
         "<std::path::PathBuf as core::ops::deref::Deref>::deref", "url::Url::as_str", "<alloc::string::String as core::convert::AsRef<str>>::as_ref",
         "<alloc::borrow::Cow<'_, B> as core::ops::deref::Deref>::deref", "<str as core::convert::AsRef<str>>::as_ref",
-        "<alloc::string::String as core::borrow::Borrow<str>>::borrow",
+        "<alloc::string::String as core::borrow::Borrow<str>>::borrow", "<url::Url as core::convert::AsRef<str>>::as_ref",
     )
 
     def std_intrinsic(self, callee, args, st, n):
@@ -1378,6 +1378,43 @@ class Interp:
             if v[0] == "enum" and v[1] == ERRV:
                 return self.then(self.apply(args[1], [v[2][0]], st, n), lambda r, s: [(OK, ("enum", ERRV, (r,)), s)])
             return [(OK, ("enum", OKV, (unk("map_err"),)), st), (OK, ("enum", ERRV, (unk("map_err"),)), st)]
+        if callee == "core::option::Option::<T>::and_then":
+            v = self.deref_val(st, args[0])
+            if v[0] == "enum" and v[1] == NONE:
+                return [(OK, v, st)]
+            if v[0] == "enum" and v[1] == SOME:
+                return self.apply(args[1], [v[2][0]], st, n)
+            return [(OK, none(), st)] + self.apply(args[1], [unk("and_then")], st, n)
+        if callee == "core::option::Option::<T>::or_else":
+            v = self.deref_val(st, args[0])
+            if v[0] == "enum" and v[1] == SOME:
+                return [(OK, v, st)]
+            if v[0] == "enum" and v[1] == NONE:
+                return self.apply(args[1], [], st, n)
+            return [(OK, v, st)] + self.apply(args[1], [], st, n)
+        if callee == "core::option::Option::<T>::or":
+            v = self.deref_val(st, args[0])
+            if v[0] == "enum" and v[1] == SOME:
+                return [(OK, v, st)]
+            if v[0] == "enum" and v[1] == NONE:
+                return [(OK, args[1], st)]
+        if callee == "core::option::Option::<T>::map_or_else":
+            v = self.deref_val(st, args[0])
+            if v[0] == "enum" and v[1] == NONE:
+                return self.apply(args[1], [], st, n)
+            if v[0] == "enum" and v[1] == SOME:
+                return self.apply(args[2], [v[2][0]], st, n)
+            return self.apply(args[1], [], st, n) + self.apply(args[2], [unk("map_or_else")], st, n)
+        if callee == "core::option::Option::<T>::unwrap_or_else":
+            v = self.deref_val(st, args[0])
+            if v[0] == "enum" and v[1] == SOME:
+                return [(OK, v[2][0], st)]
+            if v[0] == "enum" and v[1] == NONE:
+                return self.apply(args[1], [], st, n)
+        if callee == "core::option::Option::<T>::filter":
+            v = self.deref_val(st, args[0])
+            if v[0] == "enum" and v[1] == NONE:
+                return [(OK, v, st)]
         if callee == "core::option::Option::<T>::map_or":
             v = self.deref_val(st, args[0])
             if v[0] == "enum" and v[1] == NONE:
